@@ -70,12 +70,13 @@ ASSUMPTIONS = ['molecule adjacency is symmetric (Graph invariant; the driver ans
                'molecules whose non-aromatic atoms already carry an undefined hydrogen count are outside the domain']
 HAS_DRIVER = True
 EXTRA_MODULES = ['Spec.Kekule', 'Model.C05Kekule', 'Model.C05Rules', 'Model.C05Thiele', 'Gen.AromaticRules']
-PROGRAMS = ['Thiele.thiele ring eligibility (monocyclic templates)', 'MoleculeContainer.kekule', 'MoleculeContainer.enumerate_kekule', 'MoleculeContainer.thiele',
+PROGRAMS = ['kekule / thiele against the pinned aromatic reference (corpus/C05_aromatic_reference.json)', 'Thiele.thiele ring eligibility (monocyclic templates)', 'MoleculeContainer.kekule', 'MoleculeContainer.enumerate_kekule', 'MoleculeContainer.thiele',
             'MoleculeContainer.thiele(fix_tautomers=False)', 'Kekule.__prepare_rings', 'Kekule.__fix_rings',
             'MoleculeContainer.calc_implicit (through kekule)', 'aromatics._rules.rules']
 ENUM_CAP = 48
 KNOWN_TAUTOMER_SIG = 'C05/thiele-numbering-dependent/tautomer-fix-acceptor-choice'
 KNOWN_SSSR_SIG = 'C05/thiele-numbering-dependent/sssr-choice-in-cages'
+KNOWN_BUFFER_SIG = 'C05/kekule:hydrogens-not-as-written/pyridine-search-buffer'
 KNOWN_FORM_SIG = 'C05/thiele-depends-on-kekule-form/tautomer-fix'
 KNOWN_FALSE_SIG = 'C05/thiele-false-but-changed/tautomer-fix-without-aromatisation'
 
@@ -218,6 +219,47 @@ def unsaturated_four_ring(mol):
         if len(r) == 4 and all(any(int(b) in (2, 4) for b in mol._bonds[n].values()) for n in r):
             return True
     return False
+
+
+def h0_version(mol):
+    """the aromatic form with every unspecified hydrogen count of an aromatic atom read as the SMILES standard reads it: none
+    (`n` is a pyridine-type nitrogen, `[nH]` a pyrrole-type one). None when nothing is unspecified."""
+    c = mol.copy()
+    changed = False
+    for n, a in c.atoms():
+        if a.implicit_hydrogens is None and any(int(b) == 4 for b in c._bonds[n].values()):
+            if a.atomic_number == 6:
+                return None   # an aromatic carbon without hydrogen count: mis-drawn ring, nothing is "written"
+            a._implicit_hydrogens = 0
+            changed = True
+    return c if changed else None
+
+
+def buffer_class(mr, expected):
+    """class condition of the known finding `pyridine-search-buffer`: with an unbounded number of attempts of the
+    pyridine-form search (`kekule(buffer_size=...)`, a documented parameter; default 7) the same molecule in the same
+    numbering does get the expected hydrogens. `expected`: {atom number in mr: H}"""
+    k2 = mr.copy()
+    st, _ = outcome(lambda: k2.kekule(buffer_size=1000000))
+    return st == 'ok' and all(k2._atoms[n].implicit_hydrogens == h for n, h in expected.items())
+
+
+def as_written(mol):
+    """`h0_version` when an independent brute-force search finds a valence-valid Kekulé structure for it (then the aromatic
+    form is a well-defined molecule whose Kekulé forms must carry exactly these hydrogens); else None"""
+    h0 = h0_version(mol)
+    if h0 is None or valid_kekule_exists(h0) is not True:
+        return None
+    return h0
+
+
+def renumbered_with_h(rng, mol, href):
+    """random renumbering of `mol` together with the same renumbering (same dict orders) of its H-completed version"""
+    mr, mp = molgen.renumber(rng, mol)
+    ref = mr.copy()
+    for n, a in href.atoms():
+        ref._atoms[mp[n]]._implicit_hydrogens = a.implicit_hydrogens
+    return mr, ref, mp
 
 
 def all_h_defined(mol):
@@ -769,7 +811,7 @@ def diff_snap(a, b):
     return '; '.join(d[:6])
 
 
-def mol_cases(tag, mol, batch, rel, rng, renum=True, dist=None, known=None):
+def mol_cases(tag, mol, batch, rel, rng, renum=True, dist=None, known=None, extra_renum=0):
     """Append the K/R request lines of one molecule to `batch`; report relational disagreements found on the real objects
     through `rel(name, detail, ints)`. Returns True when the molecule is non-trivial (has an aromatic / aromatised ring)."""
     def d(key, n=1):
@@ -816,6 +858,30 @@ def mol_cases(tag, mol, batch, rel, rng, renum=True, dist=None, known=None):
                 rel('prepare-raise-but-kekule-ok', tag, ints0)
             if ret is not True:
                 rel('kekule-return', f'{tag}: returned {ret!r} on a molecule with aromatic bonds', ints0)
+            written = as_written(fixed) if not nmaps else None
+            if written is not None:
+                # the reader leaves the hydrogens of `n` undefined; the SMILES standard does not: the Kekulé form must carry
+                # the hydrogens as written, for every numbering
+                d('kekule:checked-against-hydrogens-as-written')
+                hw = {n: a.implicit_hydrogens for n, a in written.atoms()}
+
+                def as_written_line(arom_ref, kek, orig, expected, name):
+                    if any(kek._atoms[n].implicit_hydrogens != h for n, h in expected.items()) and known is not None \
+                            and buffer_class(orig, expected):
+                        d('known:pyridine-search-buffer-exhausted')
+                        known(KNOWN_BUFFER_SIG, f'{tag}: kekule() gives ' + str(kek) + ' for ' + str(written), ints0)
+                    else:
+                        batch.add(line('kekn', wire.mol_to_ints(arom_ref), wire.mol_to_ints(kek), sssr_ints(arom_ref)), 'ok', 'R',
+                                  name, (tag, wire.mol_to_ints(arom_ref)))
+                as_written_line(written, k, src, hw, 'kekule-hydrogens-as-written')
+                for _ in range(extra_renum):
+                    mr, refr, mp = renumbered_with_h(rng, src, written)
+                    kr = mr.copy()
+                    st2, _ = outcome(lambda: kr.kekule())
+                    if st2 != 'ok':
+                        rel('kekule-numbering-dependent', f'{tag}: kekule(pi m) {st2}', ints0)
+                        break
+                    as_written_line(refr, kr, mr, {mp[n]: h for n, h in hw.items()}, 'kekule-hydrogens-as-written-renumbered')
             batch.add(line('kekn', fints, wire.mol_to_ints(k), sssr_ints(fixed)), 'ok', 'R', 'kekule', (tag, ints0))
             # enumerated forms of the molecule as given
             # (only when every hydrogen count is given: with `n` atoms of unspecified H the enumeration ranges over
@@ -1014,6 +1080,86 @@ def tautomer_choice_only(k, kr, mp):
     return documented_moves(k, x) and documented_moves(kr, y)
 
 
+REF_PATH = core.VERIF / 'corpus' / 'C05_aromatic_reference.json'
+
+
+def load_reference():
+    if not REF_PATH.exists():
+        return []
+    return json.loads(REF_PATH.read_text())['entries']
+
+
+def arom_set(mol, inv=None):
+    out = set()
+    for n, m, b in mol.bonds():
+        if int(b) == 4:
+            if inv is not None:
+                n, m = inv[n], inv[m]
+            out.add((min(n, m), max(n, m)))
+    return out
+
+
+def reference_failures(entry, rng, perms, lines=None):
+    """clauses of C05 that fail against one pinned reference entry (aromatic bond set and hydrogens of an aromatic SMILES
+    according to RDKit). `lines`, if given, collects (request line, name) pairs for the Lean checker."""
+    fails = []
+    m = molgen.parse(entry['smiles'])
+    ref_arom = {tuple(x) for x in entry['aromatic_bonds']}
+    hs = entry['hydrogens']
+    if m is None or [a.atomic_number for _, a in m.atoms()] != entry['elements'] or arom_set(m) != ref_arom or \
+            any(a.implicit_hydrogens is not None and a.implicit_hydrogens != h for (_, a), h in zip(m.atoms(), hs)):
+        return None   # the reader no longer delivers this aromatic form: not this property's business
+    href = m.copy()
+    for (_, a), h in zip(href.atoms(), hs):
+        a._implicit_hydrogens = h
+
+    def one(mr, refr, mp, what):
+        inv = {v: k for k, v in mp.items()}
+        kr = mr.copy()
+        st, _ = outcome(lambda: kr.kekule())
+        if st != 'ok':
+            fails.append((what + 'kekule-fails', st))
+            return None
+        bad = [n for n in m._atoms if kr._atoms[mp[n]].implicit_hydrogens != hs[n - 1]]
+        if bad:
+            cl = 'kekule:hydrogens-not-as-written/pyridine-search-buffer' \
+                if buffer_class(mr, {mp[n]: hs[n - 1] for n in m._atoms}) else what + 'hydrogens'
+            fails.append((cl, f'atoms {bad[:4]}: ' + ', '.join(
+                f'{hs[n - 1]}->{kr._atoms[mp[n]].implicit_hydrogens}' for n in bad[:4])))
+            if cl != what + 'hydrogens':
+                return None
+        if lines is not None:
+            lines.append((line('kekn', wire.mol_to_ints(refr), wire.mol_to_ints(kr), sssr_ints(refr)), what + 'kekule'))
+        tr = kr.copy()
+        st, _ = outcome(lambda: tr.thiele())
+        if st != 'ok':
+            fails.append((what + 'thiele-fails', st))
+            return None
+        if arom_set(tr, inv) != ref_arom:
+            lost = sorted(ref_arom - arom_set(tr, inv))[:4]
+            extra = sorted(arom_set(tr, inv) - ref_arom)[:4]
+            fails.append((what + 'aromatic-form', f'not aromatic again: {lost}; newly aromatic: {extra}'))
+        return tr
+
+    ident = {n: n for n in m._atoms}
+    t = one(m, href, ident, 'reference:')
+    if t is not None and not unsaturated_four_ring(t):
+        st, forms = outcome(lambda: list(itertools.islice(t.copy().enumerate_kekule(), 12)))
+        if st == 'ok':
+            for f in forms:
+                ft = f.copy()
+                s2, _ = outcome(lambda: ft.thiele())
+                if s2 != 'ok' or arom_set(ft) != ref_arom:
+                    fails.append(('reference:form-aromatic-form', f'{s2} {str(f)}'))
+                    break
+    for _ in range(perms):
+        if fails:
+            break
+        mr, refr, mp = renumbered_with_h(rng, m, href)
+        one(mr, refr, mp, 'reference-renumbered:')
+    return fails
+
+
 def forms_of(tag, mol, fints, sssr, batch, rel, d, aromatic=None, known=None, ref_kek=None, kints=None):
     """every enumerated Kekulé form (capped) is accepted by the checker and aromatises to the same aromatic form"""
     st, forms = outcome(lambda: list(itertools.islice(mol.copy().enumerate_kekule(), ENUM_CAP)))
@@ -1169,6 +1315,46 @@ def correspond(ctx):
     run_batch(ctx, batch)
     ctx.notes.append(f'thiele ring-eligibility table: {n_t} monocyclic templates (complete template grid)')
 
+    # ---- pinned reference: the GIVEN aromatic form is the reference (RDKit facts committed in corpus/), many renumberings
+    #      for fused aza-arenes whose pyridine / pyrrole nitrogens the Kekulé search has to decide
+    entries = load_reference()
+    if not entries:
+        ctx.broke('correspondence', 'reference-file-missing', str(REF_PATH))
+    cat = [e for e in entries if e['source'] == 'catalogue']
+    rest = [e for e in entries if e['source'] != 'catalogue']
+    if ctx.quick:
+        rest = rng.sample(rest, min(len(rest), 160))
+    batch = Batch()
+    t0 = time.time()
+    n_ref = 0
+    for e in cat + rest:
+        if e['multi_n']:
+            perms = (40 if ctx.quick else 200) if e['source'] == 'catalogue' else (6 if ctx.quick else 20)
+        else:
+            perms = 2 if ctx.quick else 5
+        lines = []
+        fl = reference_failures(e, rng, perms, lines)
+        if fl is None:
+            ctx.dist('reference:reader-delivers-another-form(skipped)')
+            continue
+        n_ref += 1
+        ctx.dist('reference:' + ('multi-N' if e['multi_n'] else 'freak' if e['freak'] else 'other'))
+        for ln, name in lines:
+            batch.add(ln, 'ok', 'R', name, (e['smiles'], {'ref': e['smiles']}))
+            ctx.count(ln)
+        for clause, det in fl:
+            ctx.cov['disagreements_checked'] += 1
+            if 'C05/' + clause == KNOWN_BUFFER_SIG:
+                ctx.fail(KNOWN_BUFFER_SIG, f"{e['smiles']}: {det}"[:600], {'ref': e['smiles'], 'clause': clause, 'perms': 200})
+                continue
+            ctx.broke('relational', clause, f"{e['smiles']}: {det}"[:600])
+            _state['bad_ref'] = _state.get('bad_ref', []) + [e['smiles']]
+        if len(batch.lines) > 4000:
+            run_batch(ctx, batch)
+            batch = Batch()
+    run_batch(ctx, batch)
+    ctx.notes.append(f'pinned aromatic reference: {n_ref} entries ({len(cat)} catalogue) in {time.time() - t0:.1f}s')
+
     # ---- molecules
     mols = []
     for s in MISDRAWN:
@@ -1196,8 +1382,8 @@ def correspond(ctx):
     for size in (5, 6):
         for name, m in hetero_monocycles(size):
             mols.append((f'heterocycle{size}:{name}', m))
-    mols += molgen.corpus(rng, 350 if ctx.quick else 4200)
-    n_gen = 450 if ctx.quick else 2500
+    mols += molgen.corpus(rng, 280 if ctx.quick else 4200)
+    n_gen = 350 if ctx.quick else 2500
     for i in range(n_gen):
         m = gen_kekule(rng)
         if m is not None:
@@ -1220,7 +1406,8 @@ def correspond(ctx):
             break
         before = len(batch.lines)
         try:
-            nt = mol_cases(tag, m, batch, rel, rng, renum=True, dist=ctx.dist, known=known)
+            extra = (8 if ctx.quick else 25) if tag.startswith('aza-benzenoid') else (1 if ctx.quick else 3)
+            nt = mol_cases(tag, m, batch, rel, rng, renum=True, dist=ctx.dist, known=known, extra_renum=extra)
         except Exception as e:  # harness problem on one molecule must not hide the others
             ctx.broke('correspondence', 'harness-exception', f'{tag}: {type(e).__name__}: {e}')
             continue
@@ -1274,6 +1461,27 @@ def property_failures(mol, rng=None, enum=True, perms=1):
             add('kekule-crash', st)
             return fails
         fails += kekule_clauses(ref, k, 'kekule')
+        written = as_written(ref) if not repaired else None
+        if written is not None:
+            # hydrogens as the SMILES standard reads the aromatic form (unspecified = none), for every numbering
+            hw = {n: a.implicit_hydrogens for n, a in written.atoms()}
+            bad = [n for n, a in k.atoms() if a.implicit_hydrogens != hw[n]]
+            if bad:
+                add('kekule:hydrogens-not-as-written' + ('/pyridine-search-buffer' if buffer_class(src, hw) else ''),
+                    f'{[(n, hw[n], k._atoms[n].implicit_hydrogens) for n in bad[:4]]}')
+            for _ in range(max(perms, 4)):
+                mr, refr, mp = renumbered_with_h(rng, src, written)
+                mr0 = mr.copy()
+                s2, _ = outcome(lambda: mr.kekule())
+                if s2 != 'ok':
+                    add('kekule-numbering-dependent', s2)
+                    break
+                bad = [n for n in hw if mr._atoms[mp[n]].implicit_hydrogens != hw[n]]
+                if bad:
+                    orig = mr0
+                    add('kekule:hydrogens-not-as-written' + ('/pyridine-search-buffer' if buffer_class(orig, {mp[n]: h for n, h in hw.items()}) else ''),
+                        f'after renumbering: {[(n, hw[n], mr._atoms[mp[n]].implicit_hydrogens) for n in bad[:4]]}')
+                    break
         if enum and not unsaturated_four_ring(src) and all_h_defined(src):
             st, forms = outcome(lambda: list(itertools.islice(src.copy().enumerate_kekule(), ENUM_CAP)))
             if st == 'ok':
@@ -1446,14 +1654,39 @@ def search(ctx):
             small = shrink(m, clause)
             ctx.fail(sig, f'{clause}: {det} ({tag})', {'wire': wire.mol_to_ints(small), 'clause': clause})
 
+    def try_ref(e, perms):
+        import random as _r
+        for sd in (ctx.seed + 1, ctx.seed + 2):
+            fl = reference_failures(e, _r.Random(sd), perms)
+            for clause, det in fl or []:
+                sig = f'C05/{clause}'
+                if sig not in seen:
+                    seen.add(sig)
+                    ctx.fail(sig, f"{clause}: {det} ({e['smiles']})", {'ref': e['smiles'], 'clause': clause, 'perms': perms, 'seed': sd})
+            if fl:
+                return
+
+    entries = load_reference()
+    by_smiles = {e['smiles']: e for e in entries}
+    first = [by_smiles[x] for x in dict.fromkeys(_state.get('bad_ref', [])) if x in by_smiles]
+    first += [by_smiles[i['ref']] for _, i in _state.get('bad', []) if isinstance(i, dict) and i.get('ref') in by_smiles]
+    for e in first[:40]:
+        try_ref(e, 80)
     for name, ints in list(_state.get('bad', []))[:200]:
         if time.time() - t0 > budget:
             return
+        if isinstance(ints, dict):
+            continue
         try:
             m, _ = wire.ints_to_mol(list(ints), calc=True)
         except Exception:
             continue
         try_mol(m, 'disagreeing case ' + name)
+    for e in entries:
+        if time.time() - t0 > budget / 2:
+            break
+        if e['source'] == 'catalogue':
+            try_ref(e, 120 if e['multi_n'] else 6)
     pool = []
     for s in MISDRAWN:
         m = molgen.parse(s)
@@ -1507,6 +1740,14 @@ def shrink(mol, clause):
 
 
 def probe(inp):
+    import random
+    if 'ref' in inp:
+        e = next((x for x in load_reference() if x['smiles'] == inp['ref']), None)
+        if e is None:
+            return None, 'reference entry not found: ' + inp['ref']
+        fl = reference_failures(e, random.Random(int(inp.get('seed', 0))), int(inp.get('perms', 40))) or []
+        hit = [f for f in fl if inp.get('clause') in (None, f[0])]
+        return bool(hit), ('; '.join(f'{c}: {d}' for c, d in hit[:3]) if hit else 'reference clauses hold')
     m, _ = wire.ints_to_mol(list(inp['wire']), calc=True)
     import random
     fl = property_failures(m, random.Random(int(inp.get('seed', 0))), perms=int(inp.get('perms', 1)))
